@@ -63,6 +63,53 @@ theorem destroy_releases_all (cfg : Cfg) (cap : Nat) (grow : Nat → Nat) (exGe 
   rw [htr] at d1
   exact ⟨by rw [d1]; show Arr.own t (a0.run cfg ops _).2.2 - 2 = _; omega, by rw [d2]; exact h5⟩
 
+/-- **the lifecycle composed**: construct (either triple), run any history, then any iterator program on
+a fresh iterator (re-allocating insertions and removals included), then any further history, destroy —
+under any refusal schedule the triple's block counter is back where it started and nothing faulted -/
+theorem lifecycle_with_iterator (cfg : Cfg) (cap : Nat) (grow : Nat → Nat) (exGe : Nat → Bool) (m0 : Mem) (t : Triple)
+    (a0 : Arr) (hnew : (Arr.new cap grow exGe m0 t).2.1 = some a0) (ops ops2 : List Op) (iops : List IterOp)
+    (hsort : ∀ xs, (cfg.sortFn xs).length = xs.length) :
+    let r := a0.run cfg ops (Arr.new cap grow exGe m0 t).2.2
+    let i := r.2.1.iterRun {} iops r.2.2
+    let r2 := i.2.1.run cfg ops2 i.2.2.2
+    Arr.own t (r2.2.1.destroy r2.2.2) = Arr.own t m0 ∧ (r2.2.1.destroy r2.2.2).fault = m0.fault := by
+  intro r i r2
+  obtain ⟨_, _, h3, h4, h5, h6⟩ := C01.new_history_refines cfg cap grow exGe m0 t a0 hnew ops hsort
+  have hi0 : a0.Inv := by
+    rcases Arr.new_spec cap grow exGe m0 t with ⟨_, h, _⟩ | ⟨_, h, _⟩ | ⟨_, _, r', h1, _, hi, _⟩
+    · rw [h] at hnew; simp at hnew
+    · rw [h] at hnew; simp at hnew
+    · rw [h1] at hnew; simp only [Option.some.injEq] at hnew; rw [← hnew]; exact hi
+  have htr : r.2.1.triple = t := by
+    show (a0.run cfg ops _).2.1.triple = t
+    rw [(Arr.run_led cfg ops a0 _ hi0 hsort).2.2.2, h6]
+  obtain ⟨_, _, p3, _, p5⟩ := C07Array.program_refines iops r.2.1 {} _ r.2.2 h3 (Arr.sim_init r.2.1)
+  obtain ⟨l1, _, _, _, l5⟩ := C07Array.program_ledger iops r.2.1 {} _ r.2.2 h3 (Arr.sim_init r.2.1)
+  obtain ⟨k1, _, _, _, _, k6⟩ := C01.history_ledger cfg ops2 i.2.1 i.2.2.2 p3 hsort
+  obtain ⟨_, _, _, _, _, q6⟩ := C01.history_refines cfg ops2 i.2.1 i.2.2.2 p3 hsort
+  have ht2 : r2.2.1.triple = t := by
+    show (i.2.1.run cfg ops2 i.2.2.2).2.1.triple = t
+    rw [k6]; show (r.2.1.iterRun {} iops r.2.2).2.1.triple = t
+    rw [l5, htr]
+  have hown : Arr.own t r2.2.2 = Arr.own t m0 + 2 := by
+    show Arr.own t (i.2.1.run cfg ops2 i.2.2.2).2.2 = _
+    have e1 : i.2.1.triple = t := by show (r.2.1.iterRun {} iops r.2.2).2.1.triple = t; rw [l5, htr]
+    rw [e1] at k1
+    rw [k1]
+    show Arr.own t (r.2.1.iterRun {} iops r.2.2).2.2.2 = _
+    rw [htr] at l1
+    rw [l1]
+    exact h4
+  obtain ⟨d1, d2⟩ := Arr.destroy_spec r2.2.1 r2.2.2 (by rw [ht2]; omega)
+  rw [ht2] at d1
+  refine ⟨by rw [d1]; omega, ?_⟩
+  rw [d2]
+  show (i.2.1.run cfg ops2 i.2.2.2).2.2.fault = _
+  rw [q6]
+  show (r.2.1.iterRun {} iops r.2.2).2.2.2.fault = _
+  rw [p5]
+  exact h5
+
 /-- a failed construction leaves nothing behind -/
 theorem new_failed_leaves_nothing (cap : Nat) (grow : Nat → Nat) (exGe : Nat → Bool) (m : Mem) (t : Triple)
     (h : (Arr.new cap grow exGe m t).2.1 = none) :
@@ -120,23 +167,38 @@ theorem remove_all_free_frees_each_once (a : Arr) (m : Mem) (hinv : a.Inv) :
   obtain ⟨r1, r2, _, _, r5⟩ := Arr.removeAllFree_spec a m hinv
   exact ⟨r1, r2, r5⟩
 
-/-- (a)+(b) iterator programs, including insertions that re-allocate -/
+/-- (a)+(b) iterator programs, including insertions that re-allocate: no fault, invariant kept, and the
+ledger balanced for either allocator triple (own counter where it was, the other allocator untouched:
+both `live` and `liveLibc` unchanged) -/
 theorem iter_program_nofault_ledger (ops : List IterOp) (a : Arr) (it : ArrIter) (c : Spec.Seq.Cursor) (m : Mem)
     (hinv : a.Inv) (hs : Arr.Sim a it c) :
     (a.iterRun it ops m).2.2.2.fault = m.fault ∧ (a.iterRun it ops m).2.2.2.live = m.live ∧
-    (a.iterRun it ops m).2.1.Inv := by
+    (a.iterRun it ops m).2.1.Inv ∧ (a.iterRun it ops m).2.2.2.liveLibc = m.liveLibc ∧
+    Arr.own a.triple (a.iterRun it ops m).2.2.2 = Arr.own a.triple m ∧
+    Arr.Foreign a.triple m (a.iterRun it ops m).2.2.2 := by
   obtain ⟨_, _, h3, h4, h5⟩ := C07Array.program_refines ops a it c m hinv hs
-  exact ⟨h5, h4, h3⟩
+  obtain ⟨l1, l2, _, b2, _⟩ := C07Array.program_ledger ops a it c m hinv hs
+  exact ⟨h5, h4, h3, b2, l1, l2⟩
 
-/-- (a)+(b) zip iterator mutators on two arrays -/
+/-- (a)+(b) zip iterator mutators on two arrays of any allocator triples (equal or mixed): `zip_iter_add`
+keeps both live-block counts (each growth step goes through its own array's triple), the others do not
+touch the ledger at all -/
 theorem zip_nofault_ledger (a1 a2 : Arr) (it : ArrIter) (z : Spec.Seq.ZipCursor) (x y : Nat) (m : Mem)
     (h1 : a1.Inv) (h2 : a2.Inv) (hs : Arr.ZSim a1 a2 it z) :
-    ((Arr.zipAdd a1 a2 it x y m).2.2.2.2.live = m.live ∧ (Arr.zipAdd a1 a2 it x y m).2.2.2.2.fault = m.fault) ∧
+    ((Arr.zipAdd a1 a2 it x y m).2.2.2.2.live = m.live ∧ (Arr.zipAdd a1 a2 it x y m).2.2.2.2.fault = m.fault ∧
+      (Arr.zipAdd a1 a2 it x y m).2.2.2.2.liveLibc = m.liveLibc) ∧
     (Arr.zipRemove a1 a2 it m).2.2.2.2.2 = m ∧ (Arr.zipReplace a1 a2 it x y m).2.2.2.2 = m ∧
     (Arr.zipNext a1 a2 it m).2.2.2 = m := by
   obtain ⟨_, sl, sf⟩ := Arr.zipAdd_sim a1 a2 it z x y m h1 h2 hs
-  exact ⟨⟨sl, sf⟩, (Arr.zipRemove_sim a1 a2 it z m h1 h2 hs).2.2.2.2.2.2.2.1,
+  exact ⟨⟨sl, sf, (Arr.zipAdd_balanced a1 a2 it x y m h1 h2).2⟩, (Arr.zipRemove_sim a1 a2 it z m h1 h2 hs).2.2.2.2.2.2.2.1,
     (Arr.zipReplace_sim a1 a2 it z x y m h1 h2 hs).2.2.2.2.2.2.2.1, (Arr.zipNext_sim a1 a2 it z m h1 h2 hs).2.2.2⟩
+
+/-- whole zip programs: `C07Array.zip_program_ledger` (both counters, fault) -/
+theorem zip_program_nofault_ledger (ops : List Spec.Seq.ZipOp) (a1 a2 : Arr) (it : ArrIter) (z : Spec.Seq.ZipCursor)
+    (m : Mem) (h1 : a1.Inv) (h2 : a2.Inv) (hs : Arr.ZSim a1 a2 it z) :
+    (Arr.zipRun a1 a2 it ops m).2.2.2.2.live = m.live ∧ (Arr.zipRun a1 a2 it ops m).2.2.2.2.liveLibc = m.liveLibc ∧
+    (Arr.zipRun a1 a2 it ops m).2.2.2.2.fault = m.fault :=
+  C07Array.zip_program_ledger ops a1 a2 it z m h1 h2 hs
 
 /-! Non-vacuity: a default-constructed array (C-library triple) grows, is filtered and destroyed:
 only the C-library counter moves and it returns to zero. -/
